@@ -220,6 +220,14 @@ def random_op(rng, sr, regs, sym, ferm):
                     del h.blocks[s]
             w, v = la.eigh(h)
             return ('eigh', [exactify(v), VecOut(w, h.indices[1], False)])
+        if kind == 'solve' and not ferm and rng.random() < 0.5:
+            # a CHARGED coefficient matrix with square blocks and any directions (the solution's charge is c_b - c_A)
+            ab = charged_system(rng, sr, sym)
+            if ab is None:
+                return None
+            a, b = ab
+            x = la.solve(a, b)
+            return ('solve', [exactify(x)])
         if kind == 'solve':
             # a square system on m's first index: a = m @ m^dagger (charge zero, blocks (c, c)) made regular, b a random vector there
             a = m @ m.dagger()
@@ -234,6 +242,24 @@ def random_op(rng, sr, regs, sym, ferm):
             x = la.solve(a, b)
             return ('solve', [exactify(x)])
     return None
+
+
+def charged_system(rng, sr, sym):
+    """(a, b): an abelian coefficient matrix with square blocks, any directions and (usually) a non-zero total charge,
+    and a right-hand side on its row index whose stored charge meets a stored row of a"""
+    d = rng.randint(1, 2)
+    cms = [{c: d for c in gen.rand_chargemap(rng, sym, maxcharges=3, maxsize=1)} for _ in range(2)]
+    dus = [rng.random() < 0.5, rng.random() < 0.5]
+    a = gen.rand_array(rng, sr, sym, chargemaps=cms, duals=dus, keep=1.0, static=False)
+    if not a.blocks:
+        return None
+    for s in list(a.blocks):
+        a.blocks[s] = np.asarray(a.blocks[s], dtype='float64') + 3.0 * np.eye(d)
+    c0 = rng.choice(list(a.blocks))[0]
+    b = gen.rand_array(rng, sr, sym, chargemaps=[dict(cms[0])], duals=[dus[0]], charge=refsym.signed(sym, c0, dus[0]), keep=1.0, static=False)
+    for s in list(b.blocks):
+        b.blocks[s] = np.asarray(b.blocks[s], dtype='float64')
+    return a, b
 
 
 def classify(m):
@@ -259,6 +285,8 @@ def with_replay(m):
     if kind == 'step':
         out['replay'] = rl.record('step', {'regs': a['regs'], 'result': y}, {
             **pr, 'out_index': b, 'step_index': a['index'], 'rng': rl.state_json(a['rng']), 'program_rng': rl.state_json(a['program_rng'])})
+    elif kind == 'solve_scenario':
+        out['replay'] = rl.record('solve_scenario', {'a': a['a'], 'b': a['b'], 'result': y}, {**pr, 'step': b})
     elif kind == 'twin_scenario':
         out['replay'] = rl.record('twin_scenario', {('t%d' % i): d for i, (_, d) in enumerate(a['twins'])} | {'result': y},
                                   {**pr, 'step': b, 'order': [sy for sy, _ in a['twins']], 'group': a['group'], 'which': a['which']})
@@ -383,6 +411,25 @@ def run(ctx):
                 ctx.nontrivial((sym, ferm, 'nested-scenario', str(sorted(x0.blocks))))
         except (ValueError, KeyError, IndexError) as e:
             raised['scenario:' + type(e).__name__] = raised.get('scenario:' + type(e).__name__, 0) + 1
+    # ---- solve with a charged coefficient matrix (every symmetry, both directions of the column index): the solution is judged
+    import symmray.linalg as la_
+    for k in range(n_prog // 2):
+        sym = SYMS[k % len(SYMS)]
+        try:
+            ab = charged_system(rng, sr, sym)
+            if ab is None:
+                continue
+            a_, b_ = ab
+            full = (rl.describe_safe(a_), rl.describe_safe(b_))
+            xs = exactify(la_.solve(a_, b_))
+            ctx.count()
+            exprs.append(valid_expr(xs, sym, False))
+            meta.append({'op': 'solve (charged matrix)', 'symmetry': sym, 'fermionic': False, 'program': ['solve(a, b)'], 'result': describe(xs),
+                         '_rp': ('solve_scenario', {'a': full[0], 'b': full[1]}, 'solve', xs)})
+            if a_.charge != refsym.zero(sym):
+                ctx.nontrivial(('solve-charged', sym, str(a_.charge), str(a_.duals), str(sorted(a_.blocks))))
+        except (ValueError, KeyError, IndexError, np.linalg.LinAlgError) as e:
+            raised['solve_scenario:' + type(e).__name__] = raised.get('solve_scenario:' + type(e).__name__, 0) + 1
     # ---- twins: the same tables, directions and axis groups under different symmetries, one after the other in this
     #      process (whatever one call leaves behind in a cache must not leak into an array of another symmetry)
     TW = {'Z': ['Z2', 'U1', 'Z4'], 'ZZ': ['Z2Z2', 'U1U1']}
@@ -639,7 +686,19 @@ def _rp_twin(sr, ins, pr, r):
     return _invalid(y, now, 'twins %s: fuse(%r) ... %s' % ('/'.join(pr['order']), g, pr['step']))
 
 
-ORACLES = {'step': _rp_step, 'nested_scenario': _rp_nested, 'twin_scenario': _rp_twin}
+def _rp_solve(sr, ins, pr, r):
+    import symmray.linalg as la
+    try:
+        y = exactify(la.solve(ins['a'], ins['b']))
+    except Exception as e:
+        print('  solve raises now (%s: %s): no array is returned' % (type(e).__name__, e))
+        return []
+    now, rec = coq_valid([y, ins['result']], pr['symmetry'], False)
+    print('  Coq validity predicate on the array returned now: %s; on the recorded array: %s' % (now, rec))
+    return _invalid(y, now, 'solve(a, b) with a charged coefficient matrix')
+
+
+ORACLES = {'step': _rp_step, 'nested_scenario': _rp_nested, 'twin_scenario': _rp_twin, 'solve_scenario': _rp_solve}
 
 
 def replay(path):
